@@ -129,6 +129,8 @@ fn matches(e: &Exp, r: &Rec) -> Result<(), String> {
 
 pub fn check_roundtrip(fams: &[NFamily], text: &str) -> Result<(), (String, String)> {
     let recs = parse(text).map_err(|e| ("unparseable-output".to_string(), format!("{} ;; output={:?}", e, text)))?;
+    // a HELP line with an empty docstring reads back as "no help": the same family as one without a HELP line
+    let recs: Vec<Rec> = recs.into_iter().filter(|r| !matches!(r, Rec::Help { text, .. } if text.is_empty())).collect();
     let exp = expected(fams);
     for (i, (e, r)) in exp.iter().zip(recs.iter()).enumerate() {
         if let Err(m) = matches(e, r) {
